@@ -29,7 +29,12 @@ class SimBaseFault(BaseException):
 
 FAULT_KINDS = {"SimFault": SimFault, "ValueError": ValueError, "RuntimeError": RuntimeError,
                "MemoryError": MemoryError, "KeyboardInterrupt": KeyboardInterrupt, "SimBaseFault": SimBaseFault,
-               "SystemExit": SystemExit}
+               "SystemExit": SystemExit,
+               # exception types that double as control-flow signals somewhere in Python or numpy
+               "KeyError": KeyError, "StopIteration": StopIteration, "IndexError": IndexError, "AttributeError": AttributeError,
+               "TypeError": TypeError, "ZeroDivisionError": ZeroDivisionError, "AssertionError": AssertionError,
+               "OSError": OSError, "LookupError": LookupError, "NotImplementedError": NotImplementedError,
+               "RecursionError": RecursionError, "GeneratorExit": GeneratorExit}
 
 
 def leq(m, n):
@@ -379,6 +384,12 @@ class Inputs:
                 if w["herm"]:
                     A = A + A.conj().T
                 A = self._zero_blocks(A, o)
+                if w["domain"] == "sparse" and w.get("p_sparse"):
+                    # different terms get different sparsity patterns (often with the same number of stored entries)
+                    keep = rg.random((N, N)) < 1.0 - w["p_sparse"]
+                    if w["herm"]:
+                        keep = np.triu(keep) | np.triu(keep, 1).T
+                    A = np.where(keep, A, 0)
                 self.full[o] = A
             if w["domain"] == "sparse":
                 from scipy import sparse
@@ -524,6 +535,19 @@ class Sim:
             self.H = BlockSeries(eval=hcb, data=self.user_data, shape=(inp.nb, inp.nb), n_infinite=inp.npert, name="Huser",
                                  dimension_names=dn)
             self.h_is_series = True
+            self.h_root = self.H
+            if world.get("view_input") and not world.get("h_data"):
+                # the caller owns a larger series (one more, uncoupled, block) and passes a view of its leading blocks
+                nbig = inp.nb + 1
+
+                def hcb_big(*index):
+                    index = tuple(int(i) for i in index)
+                    if index[0] >= inp.nb or index[1] >= inp.nb:
+                        return zero
+                    return env.h_call(index, index[2:], lambda: inp.blocks.get(index, zero))
+
+                self.h_root = BlockSeries(eval=hcb_big, shape=(nbig, nbig), n_infinite=inp.npert, name="Hbig", dimension_names=dn)
+                self.H = self.h_root[: inp.nb, : inp.nb]
         elif fmt in ("scalar_idx", "scalar_vecs", "implicit"):
             if fmt == "implicit":
                 scipy_shim()
@@ -600,6 +624,8 @@ class Sim:
         elif fmt not in ("blocked", "nested"):
             self.kw["subspace_indices"] = inp.idx
         self.user_series = [self.H] if self.h_is_series else []
+        if getattr(self, "h_root", None) is not None and self.h_root is not self.H:
+            self.user_series.append(self.h_root)
 
     # ---- custom solvers (caller supplied)
     def _custom_solver(self, legacy):
@@ -1444,7 +1470,9 @@ class GraphProp:
              "complex_e": r.random() < 0.4, "derived": r.random() < profile.get("p_derived", 0.5),
              "internals": r.random() < profile.get("p_internals", 0.5), "h_data": r.random() < 0.3,
              "symbols": r.random() < 0.2, "dimnames": r.random() < 0.2, "interleave": r.random() < 0.4,
-             "zero_level": bool(nb >= 2 and domain in ("dense", "sparse") and r.random() < 0.12), "sectors": bool(nb >= 3 and domain in ("dense", "sparse") and r.random() < 0.25),
+             "zero_level": bool(nb >= 2 and domain in ("dense", "sparse") and r.random() < 0.12),
+             "p_sparse": r.choice([0.0, 0.3, 0.5, 0.7]) if domain == "sparse" else 0.0,
+             "view_input": r.random() < 0.15, "sectors": bool(nb >= 3 and domain in ("dense", "sparse") and r.random() < 0.25),
              "cap": profile.get("max_total", {1: 4, 2: 3, 3: 2})[npert] if domain != "sym" else 3}
         if fmt == "scalar_vecs":
             w["real"] = False
